@@ -242,4 +242,4 @@ mod test {
 
 #[cfg(all(transparencies_stretto_verif, any(kani, test)))]
 #[path = "/verif/harness/h_sketch.rs"]
-mod verif_harness;
+pub(crate) mod verif_harness;
